@@ -72,8 +72,10 @@ ValueHazards(fmt, v) ==
   ELSE IF v.k = "float" /\ fmt # "yaml" THEN {JsonDeviation(v.v)} \ {"none"}
   ELSE {}
 
-\* how a re-parse ended, as far as a named deviation has to be recognised: the same value, another value, a rejection
-Outcome(r, v) == IF IsErr(r) THEN "rejected" ELSE IF Same(r, v) THEN "same" ELSE "changed"
+\* how a re-parse ended, as far as a named deviation has to be recognised.  A hazard str that was read as a float may be
+\* rejected or silently accepted further on depending on WHICH float it is (3e+932 is inf, written Infinity by json, a str
+\* again ...), which this spec does not compute: under a hazard only "failed" / "same" is compared
+Outcome(r, v) == IF ~IsErr(r) /\ Same(r, v) THEN "same" ELSE "failed"
 CheckLeaf(k) ==
   LET o    == Leafs[k]
       viaRuyaml == o.route = "print/comments"                                \* the text was rewritten by a second yaml library: not modelled
@@ -104,7 +106,7 @@ CheckCfg(k) ==
       asAlg == (IsErr(o.re) /\ IsErr(alg)) \/ (~Bad(o.re) /\ ~Bad(alg) /\ o.re.sel = alg.sel /\ Len(o.re.top) = Len(alg.top) /\ Len(o.re.sub) = Len(alg.sub)
                                                /\ (\A n \in 1..Len(alg.top) : Approx(o.re.top[n], alg.top[n])) /\ (\A n \in 1..Len(alg.sub) : Approx(o.re.sub[n], alg.sub[n])))
       okCfg(r) == ~Bad(r) /\ SameCfg(r, want)
-      kindAs(a) == (IsErr(o.re) /\ IsErr(a)) \/ (~Bad(o.re) /\ ~Bad(a) /\ okCfg(o.re) = okCfg(a))             \* a float read from a hazard str is not computed here
+      kindAs(a) == ~IsUnsure(a) /\ okCfg(o.re) = okCfg(a)                                                     \* failed / same, see Outcome
       sameKind == kindAs(alg)
       \* the same with an IDEAL scalar layer: what remains when only the configuration-level deviations apply
       ialg    == ReparseCfg(shape, o.cfg, o.fmt, Fl(o, TRUE))
